@@ -99,6 +99,13 @@ CHECKS['C03'] = {
     'technique': 'TLC invariants (scaling theorems) on exact kernels + TLC-validated observation events with a law table in TLA+',
 }
 
+CHECKS['C02'] = {
+    'text': 'ClassLayout.tla (on Axis.tla): expected resolved NFFT, default layout, number of values and bin per entry for every (datatype, N even/odd, NFFT argument None/nextpow2/even/odd), TLC-checked against the length rule of the statement; every configuration is replayed on all twelve classes (psd, frequencies(), NFFT, sides, real and finite). Tone clause: ObsC02.tla holds the tolerance table (exact: periodogram, correlogram, covariance, modified covariance, MUSIC, EV; one bin: Burg, Yule-Walker, ARMA, minimum variance; taper bandwidth: multitaper; MA exempt; real sinusoids within ceil(NFFT/N)+1 bins) and validates where each class peaks on its own reported axis for on-grid complex tones at positive and negative bins and real sinusoids, even and odd NFFT, three sampling rates.',
+    'design_ref': 'DESIGN.md 3/C02',
+    'note': 'The tone clause is decided from observation events on synthetic tones in 1e-3 noise with modest orders (domain calibrated on the repaired tree); the exact small-scope tone clause of the design (Cyc data) was not built.',
+    'technique': 'TLA+ layout table enumerated by TLC and replayed on every class; TLC-validated observation events with the tolerance table in TLA+',
+}
+
 NOT_APPLICABLE = {
     'C18': 'Slepian tapers: irrational eigenproblem solved in C; no exact finite model exists and quantised re-verification would make Python the oracle (a different technique). DESIGN.md section 4.',
 }
